@@ -199,7 +199,9 @@ class Exec(SpecMixin, ExprMixin, CallMixin, BuiltinMixin, StmtMixin, EventMixin)
         continue
       st.env[gname] = ops.fresh_val(parse_type(gty), gname, st)
     self.ref_fields = self.relevant_ref_fields(node)
-    ops.heap_wf(st, st.heap, self.ref_fields, self.field_kinds, self.value_kinds)
+    if self.mode != 'event':
+      # (event mode compares callback traces; the heap closure axioms only slow refutations down)
+      ops.heap_wf(st, st.heap, self.ref_fields, self.field_kinds, self.value_kinds)
     self.class_axioms(st)
     return st
 
